@@ -118,6 +118,15 @@ def main():
             broken.append(u)
     proof_ok = not broken and props["ok"]
 
+    coqchk_info = None
+    if args.tier == "thorough" and proof_ok and not args.no_build:
+        with build.Lock():
+            ok_chk, txt = build.coqchk(prop)
+        coqchk_info = {"ok": ok_chk, "summary": txt[-3000:]}
+        if not ok_chk:
+            broken.append("coqchk rejected Props/%s.vo: %s" % (prop, txt[-300:]))
+            proof_ok = False
+
     # ---- 4: correspondence + oracle on the implementation
     ctx = Ctx(prop, args.tier, seed)
     out = Outcome()
@@ -190,6 +199,7 @@ def main():
             "notes": out.notes + [f"stale known finding (no longer fails): {f['text']} :: {d}" for f, d in stale],
             "known_findings_confirmed": [f["text"] for f in known["open"] if not any(f is s for s, _ in stale)],
             "build_s": binfo["build_s"],
+            "coqchk": coqchk_info,
         },
         "assumptions": getattr(hmod, "ASSUMPTIONS", []),
         "wall_s": wall, "violations": len(new_violations) if new_violations else (1 if exit_code else 0),
